@@ -47,7 +47,10 @@ def make_recipe(rng, tier):
     kind = ["mean_changes", "weak_changes", "noise", "small_alphabet", "piecewise_const", "spikes",
             "var_changes", "dyadic", "ramp"][int(rng.integers(9))]
     X, _ = gen_data(rng, n, p, kind, boundary=spec["kw"]["bandwidth"])
-    return {"det": spec, "X": X, "data_kind": kind}
+    int_dtype = bool(rng.random() < 0.15)
+    if int_dtype:
+        X = np.round(2 * X)
+    return {"det": spec, "X": X, "data_kind": kind, "int_dtype": int_dtype}
 
 
 def fresh_score(spec_cs, X):
@@ -73,11 +76,15 @@ def runs_above(scores, thr):
 
 def exec_case(ctx, r):
     X = np.asarray(r["X"], dtype=float)
+    if r.get("int_dtype"):
+        X = X.astype(np.int64)  # the same numbers passed with an integer dtype
     n, p = X.shape
     spec = r["det"]
     kw = spec["kw"]
     b, mdi = kw["bandwidth"], kw["min_detection_interval"]
     ctx.case()
+    if r.get("int_dtype"):
+        ctx.stat("cases[int64 data]")
     if b == 1:
         ctx.stat("cases[bandwidth=1]")
     if n == 2 * b:
@@ -100,7 +107,7 @@ def exec_case(ctx, r):
     if scores.shape != (n,):
         ctx.violation(sub, "score-shape", f"{label}: scores shape {scores.shape}", r)
         return
-    cs = fresh_score(kw["change_score"], X)
+    cs = fresh_score(kw["change_score"], X.astype(float))
     ts = np.arange(b, n - b + 1)
     want = np.zeros(n)
     want[ts] = cs.evaluate(np.column_stack((ts - b, ts, ts + b))).sum(axis=1)
